@@ -107,7 +107,9 @@ func c08pairs(rs []dnsdata.MapRecord) string {
 // (`text[:1]`); neither the compiler nor ApplyDiff hand it one (lines / payloads shorter than 2 bytes
 // are skipped), so it never gets into a dictionary.
 func c08convert(c *dnsdata.Codec, line []byte) (res string) {
-	if len(line) == 0 {
+	if len(line) == 0 || len(line) >= bufio.MaxScanTokenSize-1 {
+		// (a line of 64 KiB cannot be read by the line scanner of the compiler or of ApplyDiff: it
+		// is malformed for both, whatever the codec would make of it)
 		return "!"
 	}
 	defer func() {
@@ -371,6 +373,8 @@ func c08errClass(err error) string {
 		return "convert"
 	case strings.HasPrefix(s, "database update failed"):
 		return "batch"
+	case strings.Contains(s, "token too long"):
+		return "convert" // the over-long line is a malformed line (the dictionary marks it rejected)
 	}
 	return "other"
 }
@@ -748,7 +752,7 @@ func (g *gen) c08failing(cur, b []string) []string {
 		has[l]++
 	}
 	var bad string
-	switch g.intn(8) {
+	switch g.intn(9) {
 	case 0, 1: // a value that is absent under a present key / an absent key
 		bad = "-+absent.ex.com,10.9.9.9,60"
 		if len(cur) > 0 && g.bool() {
@@ -797,6 +801,8 @@ func (g *gen) c08failing(cur, b []string) []string {
 		bad = g.pick([]string{`++bad.loc.ex.com,1.2.3.4,,,\9z`, "-%aa,not-a-cidr,m1", `-'t.ex.com,x,60,,toolongloc`})
 	case 6: // a rejected line behind leading blanks: trimmed, then still rejected
 		bad = g.pick([]string{"+  ?unknown.prefix,1.2.3.4", "-   Xfoo", "+ $x", `-  't.ex.com,x,60,,toolongloc`})
+	case 7: // a line the scanner cannot read (70 KB), after lines that apply
+		bad = "+:big.ex.com,16," + strings.Repeat(`\141`, 17500)
 	default: // removing a range point that is not there
 		bad = "-!m1,10.77.0.0,16,aa"
 	}
